@@ -416,8 +416,8 @@ def guarded_subscripts(fn: ast.AST, mapping_text: str) -> list[tuple[ast.Subscri
             for sub in ast.walk(root):
                 if isinstance(sub, ast.Subscript) and isinstance(sub.ctx, ast.Load) and ast.unparse(sub.value) == mapping_text:
                     key = ast.unparse(sub.slice)
-                    ok = any(t.kind == "test" and isinstance(t.ast, ast.Compare) and len(t.ast.ops) == 1 and isinstance(t.ast.ops[0], ast.In)
-                             and ast.unparse(t.ast.left) == key and ast.unparse(t.ast.comparators[0]) == mapping_text and g.only_if(n.id, t.id, True) for t in g.nodes)
+                    ok = any(t.kind == "test" and isinstance(t.ast, ast.Compare) and len(t.ast.ops) == 1 and isinstance(t.ast.ops[0], (ast.In, ast.NotIn))
+                             and ast.unparse(t.ast.left) == key and ast.unparse(t.ast.comparators[0]) == mapping_text and g.only_if(n.id, t.id, isinstance(t.ast.ops[0], ast.In)) for t in g.nodes)
                     out.append((sub, ok))
     return out
 
@@ -436,7 +436,13 @@ def _def_nodes(g: CFG) -> dict[str, dict[int, ast.expr | None]]:
     out: dict[str, dict[int, ast.expr | None]] = {}
     for n in g.nodes:
         st = n.ast
-        if st is None or n.kind == "test":
+        if st is None:
+            continue
+        if n.kind == "test":
+            # `(x := e)` evaluated by the test defines x with value e
+            for x in ast.walk(st):
+                if isinstance(x, ast.NamedExpr) and isinstance(x.target, ast.Name):
+                    out.setdefault(x.target.id, {})[n.id] = x.value
             continue
         if n.kind == "for" and isinstance(st, (ast.For, ast.AsyncFor)):
             for t in ast.walk(st.target):
@@ -458,6 +464,10 @@ def _def_nodes(g: CFG) -> dict[str, dict[int, ast.expr | None]]:
             for t in st.targets:
                 if isinstance(t, ast.Name):
                     out.setdefault(t.id, {})[n.id] = st.value
+                elif isinstance(t, (ast.Tuple, ast.List)) and all(isinstance(x, ast.Name) for x in t.elts):
+                    # a, b = <value>: a is <value>[0], b is <value>[1] (looked through by `flows` when <value> is a tuple display)
+                    for i, x in enumerate(t.elts):
+                        out.setdefault(x.id, {})[n.id] = ast.copy_location(ast.Subscript(value=st.value, slice=ast.Constant(value=i), ctx=ast.Load()), st)
                 else:
                     for x in ast.walk(t):
                         if isinstance(x, ast.Name) and isinstance(x.ctx, ast.Store):
@@ -561,7 +571,7 @@ def control_deps(fi: FuncInfo, target: ast.AST | Node) -> list[tuple[str, bool, 
     """(anonymised test text, polarity, test node) for every atomic test the statement / node is control dependent on
     (exact: removing that out-edge of the test makes the node unreachable).  Each test is listed once per expansion form."""
     g = build_cfg(fi.node)
-    n = target if isinstance(target, Node) else g.node_of(target)
+    n = target if isinstance(target, Node) else node_containing(g, target)
     out: list[tuple[str, bool, Node]] = []
     if n is None:
         return out
@@ -601,8 +611,9 @@ def alternatives(fn: ast.AST, e: ast.expr | None) -> list[ast.expr]:
 
 
 def family(repo, fi: FuncInfo, depth: int = 3) -> list[FuncInfo]:
-    """``fi`` plus the underscore-private helpers of its class / module it still calls (those the inliner could not
-    splice, e.g. a loop helper used inside a boolean expression), transitively."""
+    """``fi`` plus the helpers of its class / module it still calls - underscore-private ones and functions that do not exist
+    on the pinned tree (products of "extract method") - i.e. those the inliner could not splice (a multi-return helper used inside
+    a comprehension or a boolean expression), transitively."""
     out = [fi]
     seen = {fi.qual}
     frontier = [fi]
@@ -611,13 +622,18 @@ def family(repo, fi: FuncInfo, depth: int = 3) -> list[FuncInfo]:
         for f in frontier:
             for c in calls_in(f.node):
                 name = call_name_of(c)
-                if not name.startswith("_") or name.startswith("__"):
+                if not name or name.startswith("__"):
                     continue
                 h = None
                 if isinstance(c.func, ast.Attribute) and isinstance(c.func.value, ast.Name) and c.func.value.id in ("self", "cls") and f.cls is not None:
                     h = f.cls.find_method(name)
                 elif isinstance(c.func, ast.Name):
                     h = repo.functions.get(f"{f.module.name}:{name}")
+                if h is not None and not name.startswith("_"):
+                    from .inline import known_functions
+
+                    if h.qual in known_functions():
+                        h = None  # a function of the pinned tree is not an implementation detail of its caller
                 if h is not None and h.qual not in seen:
                     seen.add(h.qual)
                     out.append(h)
@@ -665,10 +681,36 @@ def flows(fi: FuncInfo, at: Node, e: ast.expr | None, depth: int = 6) -> list[tu
         for v in e.values:
             out += flows(fi, at, v, depth)
         return out
+    if isinstance(e, ast.Subscript) and isinstance(e.slice, ast.Slice) and e.slice.step is None and depth > 0 and all(
+            b is None or (isinstance(b, ast.Constant) and isinstance(b.value, int)) for b in (e.slice.lower, e.slice.upper)):
+        # pair[:2] where pair = (a, b, c): the sub-tuple display
+        out = []
+        lo = e.slice.lower.value if e.slice.lower is not None else None
+        hi = e.slice.upper.value if e.slice.upper is not None else None
+        for leaf, chain in flows(fi, at, e.value, depth - 1):
+            if isinstance(leaf, (ast.Tuple, ast.List)) and not any(isinstance(x, ast.Starred) for x in leaf.elts):
+                sub = ast.copy_location(ast.Tuple(elts=leaf.elts[lo:hi], ctx=ast.Load()), e)
+                sub._xsa_at = chain[-1] if chain else at  # type: ignore[attr-defined]
+                out.append((sub, chain))
+            else:
+                out.append((ast.copy_location(ast.Subscript(value=leaf, slice=e.slice, ctx=ast.Load()), e), chain))
+        return out
+    if isinstance(e, ast.Subscript) and isinstance(e.slice, ast.Constant) and isinstance(e.slice.value, int) and depth > 0:
+        # element of a tuple / list display that flows here: pair[0] where pair = (a, b)
+        out = []
+        for leaf, chain in flows(fi, at, e.value, depth - 1):
+            if isinstance(leaf, (ast.Tuple, ast.List)) and -len(leaf.elts) <= e.slice.value < len(leaf.elts) and not any(isinstance(x, ast.Starred) for x in leaf.elts):
+                where = chain[-1] if chain else at
+                for l2, c2 in flows(fi, where, leaf.elts[e.slice.value], depth - 1):
+                    out.append((l2, [*chain, *c2]))
+            else:
+                out.append((ast.copy_location(ast.Subscript(value=leaf, slice=e.slice, ctx=ast.Load()), e), chain))
+        return out
     if isinstance(e, ast.Name) and isinstance(e.ctx, ast.Load) and depth > 0:
         found, hit_entry = reaching_defs(g, at.id, e.id)
         table = _def_nodes(g).get(e.id, {})
-        if found and not hit_entry and all(table[d] is not None for d in found):
+        is_param = isinstance(fi.node, (ast.FunctionDef, ast.AsyncFunctionDef)) and e.id in {a.arg for a in [*fi.node.args.posonlyargs, *fi.node.args.args, *fi.node.args.kwonlyargs]}
+        if found and (not hit_entry or is_param) and all(table[d] is not None for d in found):
             out = []
             for d in found:
                 v = table[d]
@@ -676,6 +718,8 @@ def flows(fi: FuncInfo, at: Node, e: ast.expr | None, depth: int = 6) -> list[tu
                     continue  # a definition that only reaches itself around a loop
                 for leaf, chain in flows(fi, g.nodes[d], v, depth - 1):
                     out.append((leaf, [g.nodes[d], *chain]))
+            if hit_entry and is_param:
+                out.append((e, []))  # the parameter's own (caller supplied) value also reaches this use
             if out:
                 return out
     return [(e, [])]
@@ -705,14 +749,14 @@ def str_template(e: ast.expr) -> list[tuple[str, object]] | None:
     if isinstance(e, ast.Call) and isinstance(e.func, ast.Attribute) and e.func.attr == "format" and isinstance(e.func.value, ast.Constant) and isinstance(e.func.value.value, str):
         import re as _re
 
-        parts = _re.split(r"(\{\d*\}|\{[a-zA-Z_]\w*\})", e.func.value.value)
+        parts = _re.split(r"(\{(?:\d*|[a-zA-Z_]\w*)(?:![rsa])?(?::[^{}]*)?\})", e.func.value.value)
         out = []
         auto = 0
         for p in parts:
             if not p:
                 continue
             if p.startswith("{") and p.endswith("}") and "{{" not in p:
-                key = p[1:-1]
+                key = p[1:-1].split(":", 1)[0].split("!", 1)[0]
                 if key == "":
                     arg = e.args[auto] if auto < len(e.args) else None
                     auto += 1
@@ -734,6 +778,7 @@ def str_template(e: ast.expr) -> list[tuple[str, object]] | None:
             return l + [("hole", e.right)]
         if r is not None:
             return [("hole", e.left)] + r
+        return [("hole", e.left), ("hole", e.right)]
     if isinstance(e, ast.BinOp) and isinstance(e.op, ast.Mod) and isinstance(e.left, ast.Constant) and isinstance(e.left.value, str):
         args = list(e.right.elts) if isinstance(e.right, ast.Tuple) else [e.right]
         parts = e.left.value.split("%s")
@@ -776,4 +821,195 @@ def entry_conditions(fi: FuncInfo, target: ast.AST | Node) -> list[tuple[str, bo
                     out.append((txt, lab == "true", pn))
             elif pn.kind not in ("test",) and lab != "exc":
                 stack.append(p)
+    return out
+
+
+def func_text(fi: FuncInfo, call: ast.Call) -> str:
+    """Source text of the called expression with alias temporaries looked through (``f = self.factory; f(x)`` -> ``self.factory``)."""
+    return ast.unparse(expand(fi.node, call.func))
+
+
+def calls_named(fi: FuncInfo, *texts: str) -> list[ast.Call]:
+    """Calls of the function whose (alias-expanded) callee text is one of ``texts``."""
+    want = set(texts)
+    return [c for c in calls_in(fi.node) if func_text(fi, c) in want]
+
+
+def leaves_at(fi: FuncInfo, where: ast.AST | Node, e: ast.expr | None) -> list[ast.expr]:
+    """Flow leaves of ``e`` evaluated at the CFG node that owns ``where`` (see ``flows``)."""
+    g = build_cfg(fi.node)
+    n = where if isinstance(where, Node) else node_containing(g, where)
+    if n is None or e is None:
+        return [] if e is None else [e]
+    return [leaf for leaf, _ in flows(fi, n, e)]
+
+
+def arg_forms(fi: FuncInfo, call: ast.Call, e: ast.expr | None) -> set[str]:
+    """Expansion forms (anonymised) of an argument expression of ``call``."""
+    g = build_cfg(fi.node)
+    n = node_containing(g, call)
+    if e is None:
+        return set()
+    return forms(fi, n, e) if n is not None else {anon_text(e, fi.node)}
+
+
+def raw_forms(fi: FuncInfo, where: ast.AST | Node, e: ast.expr | None) -> set[str]:
+    """Like ``forms`` but NOT anonymised: source text of ``e`` at increasing depths of temporary expansion."""
+    g = build_cfg(fi.node)
+    n = where if isinstance(where, Node) else node_containing(g, where)
+    if e is None:
+        return set()
+    out = {ast.unparse(e)}
+    if n is not None:
+        for d in (1, 2, 3, 4):
+            out.add(ast.unparse(expand_at(fi, n, e, d)))
+    return out
+
+
+def test_subject(t: Node) -> ast.expr | None:
+    """The expression whose truthiness an atomic test decides: the test itself, or the target of ``(x := e)``."""
+    e = t.ast
+    if isinstance(e, ast.NamedExpr):
+        return e.target
+    return e if isinstance(e, ast.expr) else None
+
+
+def truthy_guard(fi: FuncInfo, target: ast.AST | Node, value: ast.expr) -> bool:
+    """``target`` runs only when ``value`` (a local, or any expression) was tested truthy: it is control dependent (True) on a test
+    whose subject is that very local / has the same text, or whose walrus binds it."""
+    g = build_cfg(fi.node)
+    n = target if isinstance(target, Node) else g.node_of(target)
+    if n is None:
+        return False
+    want = ast.unparse(value)
+    for t in g.nodes:
+        if t.kind != "test" or t.ast is None:
+            continue
+        subj = test_subject(t)
+        if subj is not None and ast.unparse(subj) == want and g.only_if(n.id, t.id, True):
+            return True
+    return False
+
+
+def none_cond(conds, want_none: bool = True) -> bool:
+    """Among (text, polarity) conditions: some test establishes that a value IS None (``x is None`` true / ``x is not None`` false),
+    or - with ``want_none=False`` - that it is not."""
+    for item in conds:
+        t, pol = item[0], item[1]
+        if t.endswith("isNone") and pol == want_none:
+            return True
+        if t.endswith("isnotNone") and pol != want_none:
+            return True
+    return False
+
+
+def enumerate_paths(g: CFG, src: int, dst: int, limit: int = 400) -> list[list[tuple[int, str]]]:
+    """Simple paths (no node repeated) from ``src`` to ``dst`` as lists of (node id, label of the edge taken out of it); exceptional
+    edges are not followed.  Empty list if there are more than ``limit`` (callers must treat that as "cannot decide")."""
+    out: list[list[tuple[int, str]]] = []
+    stack: list[tuple[int, list[tuple[int, str]], frozenset[int]]] = [(src, [], frozenset([src]))]
+    while stack:
+        n, path, seen = stack.pop()
+        if n == dst:
+            out.append(path)
+            if len(out) > limit:
+                return []
+            continue
+        for m, lab in g.succ[n]:
+            if lab == "exc" or m in seen:
+                continue
+            stack.append((m, [*path, (n, lab)], seen | {m}))
+    return out
+
+
+def path_conditions(fi: FuncInfo, target: ast.AST | Node, start: Node | None = None) -> list[list[tuple[set[str], bool, Node]]]:
+    """For every simple path from the function entry (or ``start``) to the node: the atomic tests decided on it, each with the
+    text forms of the test *as evaluated on that path* (locals replaced by their most recent plain assignment on the path) and
+    the outcome taken.  Path sensitive: `c = a` on one arm and `c = b` on the other give different forms for a later test on c."""
+    g = build_cfg(fi.node)
+    n = target if isinstance(target, Node) else g.node_of(target)
+    if n is None:
+        return []
+    import copy
+
+    out = []
+    for path in enumerate_paths(g, (start or g.nodes[g.entry]).id, n.id):
+        env: dict[str, ast.expr | None] = {}
+        conds: list[tuple[set[str], bool, Node]] = []
+
+        def subst(e: ast.expr, depth: int = 4) -> ast.expr:
+            class T(ast.NodeTransformer):
+                def visit_Name(self, x: ast.Name):
+                    if isinstance(x.ctx, ast.Load) and env.get(x.id) is not None and depth > 0:
+                        return copy.deepcopy(env[x.id])
+                    return x
+
+                def visit_Lambda(self, x):
+                    return x
+
+            return T().visit(copy.deepcopy(e))
+
+        for nid, lab in path:
+            node = g.nodes[nid]
+            st = node.ast
+            if node.kind == "test" and st is not None:
+                for x in ast.walk(st):
+                    if isinstance(x, ast.NamedExpr) and isinstance(x.target, ast.Name):
+                        env[x.target.id] = subst(x.value)
+                if lab in ("true", "false"):
+                    conds.append(({anon_text(st, fi.node), anon_text(subst(st), fi.node)}, lab == "true", node))
+            elif node.kind == "stmt" and isinstance(st, (ast.Assign, ast.AnnAssign)) and st.value is not None:
+                tgts = st.targets if isinstance(st, ast.Assign) else [st.target]
+                for t in tgts:
+                    if isinstance(t, ast.Name):
+                        env[t.id] = subst(st.value)
+                    else:
+                        for x in ast.walk(t):
+                            if isinstance(x, ast.Name) and isinstance(x.ctx, ast.Store):
+                                env[x.id] = None
+            elif node.kind == "stmt" and isinstance(st, ast.AugAssign) and isinstance(st.target, ast.Name):
+                env[st.target.id] = None
+            elif node.kind == "for" and st is not None:
+                for x in ast.walk(st.target):
+                    if isinstance(x, ast.Name):
+                        env[x.id] = None
+        out.append(conds)
+    return out
+
+
+def node_containing(g: CFG, where: ast.AST) -> Node | None:
+    """CFG node that owns ``where``: the registered owner, else the statement / test node whose syntax tree contains it."""
+    n = g.node_of(where)
+    if n is not None:
+        return n
+    for cand in g.nodes:
+        if cand.ast is None:
+            continue
+        roots = [cand.ast] if cand.kind == "test" else header_exprs_of(cand)
+        for r in roots:
+            for x in ast.walk(r):
+                if x is where:
+                    return cand
+    return None
+
+
+def atomic_conditions(fn: ast.AST) -> list[ast.expr]:
+    """Every atomic condition of a function: the CFG's test nodes plus the (and / or / not flattened) filters of its comprehensions
+    and generator expressions, and the tests of conditional expressions that are not in statement position."""
+    g = build_cfg(fn)
+    out: list[ast.expr] = [t.ast for t in g.nodes if t.kind == "test" and t.ast is not None]
+
+    def flat(e: ast.expr) -> list[ast.expr]:
+        if isinstance(e, ast.BoolOp):
+            return [x for v in e.values for x in flat(v)]
+        if isinstance(e, ast.UnaryOp) and isinstance(e.op, ast.Not):
+            return flat(e.operand)
+        return [e]
+
+    for n in walk_no_nested(fn):
+        if isinstance(n, ast.comprehension):
+            for c in n.ifs:
+                out += flat(c)
+        elif isinstance(n, ast.IfExp):
+            out += flat(n.test)
     return out
